@@ -1,6 +1,7 @@
 //! Per-property simulations and their batch configurations.
 
 pub mod c16;
+pub mod c18;
 pub mod c19;
 #[cfg(feature = "reg")]
 pub mod c20;
@@ -29,6 +30,7 @@ pub fn batch_cfg(prop: &str, tier: Tier, seed: u64) -> BatchCfg {
         components: json!({}),
         extra_env: Vec::new(),
         crashes_are_violations: true,
+        variants: Vec::new(),
     };
     match prop {
         "C20" => {
@@ -62,6 +64,23 @@ pub fn batch_cfg(prop: &str, tier: Tier, seed: u64) -> BatchCfg {
             cfg.components = json!({
                 "real": ["wac-parser (lexer, parser, printer, resolution)", "wac-graph (graph API, encoder)", "wac-types (package decoding, aggregator, checker)", "wac-resolver (packages discovery, fs resolver at load time)", "wasmparser / wasm-encoder / wit-parser / wit-component", "std HashMap/HashSet (real SipHash, keys chosen by the simulator)"],
                 "stub": ["kernel getrandom (interposed: keys are a function of the simulated process's hash seed)", "process boundary (a simulated process is a fresh OS thread, joined before the next one starts)"],
+            });
+        }
+        "C18" => {
+            cfg.variants = vec!["none".into(), "wit".into(), "full".into()];
+            cfg.runs = if quick { 60_000 } else { 3_000_000 };
+            cfg.chunk = if quick { 1500 } else { 15_000 };
+            cfg.sample_every = cfg.runs / 4;
+            cfg.level = "exploration".into();
+            cfg.rule = "Seeded sampling of the lookup's decision table: each run draws 1-3 package keys (1-3 name segments; no version, release, pre-release, build-metadata), the state of every candidate path (base: absent / WIT directory valid / empty / invalid; <base>.wasm: absent / component / garbage / directory; <base>.wat: absent / text / binary / invalid text / directory; a decoy where Path::set_extension would look; override: none / .wasm / .wat / .wit / garbage / dangling / directory), the unknown-package mode and the request order; run i executes in harness build i mod 3 (wac-resolver features none / wit / wit+wat). The real FileSystemPackageResolver::resolve runs on the materialised tree and is compared with an executable model of the documented lookup. A run is non-trivial always; distinct = distinct SHA-256 digests of the run's event log (build, mode, keys, overrides, every file and directory of the tree, expectation per key, outcome). Coverage is also reported as decision-table cells hit (coverage.cover.cells).".into();
+            cfg.assumptions = vec![
+                "The model is written from README.md and the doc comments of fs.rs and asserts only cells the property specifies; cells the documentation leaves open (override or candidate path being a directory, .wit/.wat override without the corresponding support) are executed, must not panic, and are not judged.".into(),
+                "Expected bytes for WIT directories / .wit overrides are what wit_parser + wit_component::encode give for that path; for .wat files what the wat crate assembles.".into(),
+                "No schedule, clock or concurrency exists in this path; the simulator contributes the disk states only. I/O errors from healthy-looking paths (EIO, EACCES) are not injected.".into(),
+            ];
+            cfg.components = json!({
+                "real": ["wac_resolver::FileSystemPackageResolver::{new,resolve} in three feature builds (none, wit, wit+wat)", "kernel file system on a tmpfs scratch tree", "wit-parser / wit-component / wat (also used to compute expected bytes)"],
+                "stub": ["nothing is stubbed; the disk content and layout are decided by the simulator"],
             });
         }
         "C19" => {
